@@ -1,0 +1,33 @@
+//go:build verif
+
+package verifhook
+
+import (
+	"time"
+
+	"github.com/aptpod/iscp-go/internal/segment"
+)
+
+// Thin bridge re-exporting internal/segment for the external harness.
+
+type (
+	SegmentSender      = segment.Sender
+	SegmentReadBuffers = segment.ReadBuffers
+	SegmentReadBuffer  = segment.ReadBuffer
+)
+
+// SegmentSendTo calls segment.SendTo.
+func SegmentSendTo(wr segment.Sender, seqNum uint32, payload []byte) (int, error) {
+	return segment.SendTo(wr, seqNum, payload)
+}
+
+// NewSegmentReadBuffers returns an empty reassembly table.
+func NewSegmentReadBuffers(expiry time.Duration) *segment.ReadBuffers {
+	return &segment.ReadBuffers{ReadBuffer: map[uint32]*segment.ReadBuffer{}, ReadBufferExpiry: expiry}
+}
+
+// SegmentSetTimeNow replaces the clock of internal/segment.
+func SegmentSetTimeNow(f func() time.Time) { segment.VerifSetTimeNow(f) }
+
+// SegmentMaxPayloadSize returns the segment payload size.
+func SegmentMaxPayloadSize() int { return segment.VerifMaxPayloadSize() }
